@@ -53,8 +53,11 @@ func GenInProc(t *rapid.T) *FCase {
 			op := FOp{K: rapid.SampledFrom([]string{"append", "append", "append", "save"}).Draw(t, "k")}
 			if op.K == "save" {
 				op.Sub = rapid.SampledFrom([]string{"A", "A", "B"}).Draw(t, "sub")
-				if rapid.IntRange(0, 2).Draw(t, "rewind") == 0 {
+				switch rapid.IntRange(0, 5).Draw(t, "rewind") {
+				case 0, 1:
 					op.Back = rapid.IntRange(1, 3).Draw(t, "back")
+				case 2:
+					op.Ahead = rapid.SampledFrom([]int{1, 5, 1000}).Draw(t, "ahead")
 				}
 			}
 			op.Fault = rapid.SampledFrom(fFaults).Draw(t, "fault")
